@@ -352,6 +352,17 @@ def explicit_variator(name, spec, rng):
     return var()
 
 
+class RunTimeout(Exception):
+    pass
+
+
+def _alarm(signum, frame):
+    raise RunTimeout("run exceeded the per-run watchdog")
+
+
+RUN_WATCHDOG_S = 30
+
+
 def run_traced(name, spec, seed, size, budgets, evaluator="map", explicit=False, extreme=0.0, op_rng=None, log_frequency=None,
                injected=0, collect_steps=True, extra_kw=None):
     """returns (trace, algorithm, error or None)"""
@@ -361,6 +372,9 @@ def run_traced(name, spec, seed, size, budgets, evaluator="map", explicit=False,
     ev, closer = make_evaluator(evaluator, tr)
     err = None
     alg = None
+    import signal
+    old = signal.signal(signal.SIGALRM, _alarm)
+    signal.alarm(RUN_WATCHDOG_S)
     with patched_random(rng):
         try:
             kw = {"evaluator": ev}
@@ -398,6 +412,8 @@ def run_traced(name, spec, seed, size, budgets, evaluator="map", explicit=False,
             import traceback
             err = f"{type(e).__name__}: {e} @ " + traceback.format_exc().strip().split("\n")[-3].strip()
         finally:
+            signal.alarm(0)
+            signal.signal(signal.SIGALRM, old)
             if closer:
                 closer()
     return tr, alg, err
